@@ -1,3 +1,4 @@
 import NormModel.Properties.C09
 #print axioms Norm.C09.token_positions
 #print axioms Norm.C09.tokens_ordered
+#print axioms Norm.C09.diag_positions
